@@ -88,4 +88,12 @@ MuAdd(a, b)   == MuNorm(a.q + b.q, a.r + b.r)
 MuSumSeq(seq, F(_)) == FoldLeft(LAMBDA acc, x : MuAdd(acc, MuOf(F(x))), [q |-> 0, r |-> 0], seq)
 Price(size, replica, dur) == CeilDiv(size * replica * dur, Mega)
 MuLeq(a, b)   == a.q < b.q \/ (a.q = b.q /\ a.r <= b.r)
-=============================================================================
+\* ---- who signed (shared by Chain.tla and Props.tla)
+DocsOf(s, did) == IF Has(s.versions, "doc", did) THEN Get(s.versions, "doc", did).versions ELSE <<>>
+IsSidDocOnChain(s, n) == \E i \in 1..Len(s.versions) : InSeq(n, s.versions[i].versions)
+SidOfDoc(s, n) == s.versions[CHOOSE i \in 1..Len(s.versions) : InSeq(n, s.versions[i].versions)].doc
+\* the DID whose key really signed ("" = nobody identifiable)
+Principal(cfg, s, ev) ==
+    IF InSeq(ev.signer, cfg.didOrder) THEN ev.signer
+    ELSE IF IsSidDocOnChain(s, ev.signer) THEN SidOfDoc(s, ev.signer) ELSE ""
+=========================================================================
